@@ -21,6 +21,7 @@ import M4riProofs.GenTieSlice
 import M4riProofs.GenTieRec
 import M4riProofs.GenTiePleFinal
 import M4riProofs.GenTieStrassen
+import M4riProofs.GenTieClose
 namespace M4ri.Props.C12
 open M4ri M4ri.BMat
 
@@ -149,5 +150,12 @@ end cfg2
     windows, 2 temporaries, the 22 steps of the Bodrato sequence, the three remainder strips) is generated by vlib/ctrans.py on every
     check; with its callees instantiated by the model it equals `mulEven (fuel + 1)`, hence the product (GenTieStrassen.lean) -/
 #check @M4ri.GenTieStrassen.strassenMulEven_step
+
+
+/-! ### THE RECURSION CLOSED on the C text: `cTrsmX n` is the generated C function `_mzd_trsm_*` with its recursive-call parameter bound to ITSELF, `n`
+    levels deep; by induction on `n` (one-step ties + callee congruence) it equals the substitution form for EVERY depth, on whole matrices
+    and on windows written back (GenTieClose.lean) -/
+#check @M4ri.GenTieClose.cTrsmUR_correct
+#check @M4ri.GenTieClose.cTrsmLL_correct
 
 end M4ri.Props.C12
